@@ -75,18 +75,72 @@ def choose_node_part(ctx):
             ctx.violation(f'avg correlation {d["corr"]} but mean winning correlation over own votes is {exp}', d)
 
 
+def raw_profile_part(ctx):
+    """The vote is cast on the cell's log2(CPM+1) profile: a run on RAW counts (several chunks, several workers,
+    cells whose total lies in (0,1), all-zero cells) must give what a run on the same cells normalised here
+    (numpy, float64: log2(1 + 1e6 x / sum x)) and declared log2CPM gives -- at bootstrap factor 1, where the
+    subsets do not depend on the generator.  Votes and assignments exactly, correlations within 1e-9; cells with
+    a near-tie vote are excused and counted."""
+    import numpy as np
+    from harness import pipeline, paired
+    rng = ctx.rng
+    for k in range(ctx.n(5, 60)):
+        sc = pipeline.gen_scenario(rng, max_levels=4, max_leaves=8, n_cells=rng.randrange(5, 14))
+        ncell, ng = len(sc.cell_ids), len(sc.query_genes)
+        raw = np.array([[float(rng.randrange(0, 40)) for _ in range(ng)] for _ in range(ncell)])
+        for i in range(ncell):
+            r = rng.random()
+            if r < 0.25:
+                raw[i] *= 2.0 ** -rng.randrange(8, 14)      # "counts" in other units: total strictly between 0 and 1
+            elif r < 0.35:
+                raw[i, :] = 0.0
+        tot = raw.sum(axis=1, keepdims=True)
+        norm = np.log2(1.0 + raw * 1.0e6 / np.where(tot > 0, tot, 1.0))
+        var = paired.base_var(rng, sc, factor=1.0)
+        va = dict(var, chunk_size=rng.randrange(1, 5), n_processors=rng.randrange(1, 4))
+        vb = dict(var, chunk_size=ncell + 1, n_processors=1)
+        ra = paired.run_once(ctx, sc, f'raw{k}', query=raw, normalization='raw', encoding=rng.choice(['dense', 'csr', 'csc']), **va)
+        rb = paired.run_once(ctx, sc, f'nrm{k}', query=norm, normalization='log2CPM', **vb)
+        nontrivial = any(len(c) >= 2 for lv in sc.tree.model[:-1] for _, c in lv) or len(sc.tree.model[0]) >= 2
+        ctx.count(('raw-profile', k), nontrivial=nontrivial)
+        ctx.dist('raw_profile_chunks', -(-ncell // va['chunk_size']))
+        desc = {'kind': 'raw-vs-recomputed-profile', 'tree': sc.tree.data, 'markers': sc.markers, 'cell_ids': sc.cell_ids,
+                'raw': raw.tolist(), 'query_genes': sc.query_genes, 'ref_genes': sc.ref_genes,
+                'means': {str(a): b for a, b in sc.means.items()}, 'config_raw': va, 'config_normalised': vb}
+        if not ra['ok'] or not rb['ok']:
+            desc['class'] = 'c02-raw-run-raises'
+            desc['error'] = ra['error'] or rb['error']
+            ctx.violation(f'a run raised: {desc["error"]}', desc)
+            continue
+        a, b = paired.by_cell(ra), paired.by_cell(rb)
+        for j, cid in enumerate(sc.cell_ids):
+            diff = paired.compare_records(a[cid], b[cid], sc.tree.levels)
+            if diff:
+                if paired.near_tie_cell(sc, ra['output'], raw[j], sc.query_genes, 'raw'):
+                    ctx.extra['near_ties_skipped'] = ctx.extra.get('near_ties_skipped', 0) + 1
+                    continue
+                ctx.disagreements_checked += 1
+                desc['class'] = 'c02-raw-profile'
+                desc['cell'] = cid
+                ctx.violation(f'cell {cid} (row {j}, raw total {float(tot[j][0])}): mapping of the raw counts differs from the mapping '
+                              f'of its log2(CPM+1) profile: {diff}', desc)
+                break
+
+
 def run(ctx):
     ctx.rule = ('(i) choose_node on random dyadic matrices with a recording generator: every vote of every query row '
                 'recomputed exactly by the extracted model; (ii) real run_mapping on generated scenarios (trees, marker '
                 'tables with fall-back, gene orders, flatten/drop, chunking, workers, factors, iterations, runners-up) with '
                 'every (cell, node) vote recomputed from the input files and the recorded subsets; non-trivial = a vote '
-                'among >= 2 children; near ties (relative margin <= 1e-9 between leaves of different children) are skipped '
+                'among >= 2 children; (iii) raw-count runs (several chunks / workers, totals in (0,1), all-zero cells) against runs on the '
+                'log2(CPM+1) profile computed here; near ties (relative margin <= 1e-9 between leaves of different children) are skipped '
                 'and counted')
     ctx.assumptions += ['float rounding inside np.dot / np.mean is not modelled: decisions are compared, near ties excused; '
                         'correlation values compared within 1e-9',
                         'bootstrap factors are dyadic so that factor*n is exact in binary64',
                         'marker tables whose non-empty lists lack any query gene are not generated here (C08, finding F7)']
     choose_node_part(ctx)
+    raw_profile_part(ctx)
     mapcheck.run_batch(ctx, ctx.n(25, 400), ('c02-', 'c08-reported', 'corr:Vote', 'corr:trace'), 'map')
 
 
